@@ -115,11 +115,11 @@ func init() {
 		ID:    "C16",
 		Level: "fault_enumeration",
 		Rule: "every (schema, input) of the per-format corpus x every fault offset 0..len (including 'instead of EOF') x fault kind " +
-			"{persistent, E1-then-E2, error returned together with the last good bytes, exploratory transient, and persistent with each of 7 error identities a format reader could take for its own: io.ErrUnexpectedEOF, os.ErrDeadlineExceeded (Timeout() true), *csv.ParseError, *json.SyntaxError, *xml.SyntaxError, io.ErrNoProgress, a message with formatting verbs} x delivery {one chunk, byte-at-a-time}; " +
+			"{persistent, E1-then-E2, error returned together with the last good bytes, fails once / carries on with the data / fails for good (held to the same standard), and persistent with each of 7 error identities a format reader could take for its own: io.ErrUnexpectedEOF, os.ErrDeadlineExceeded (Timeout() true), *csv.ParseError, *json.SyntaxError, *xml.SyntaxError, io.ErrNoProgress, a message with formatting verbs} x delivery {one chunk, byte-at-a-time}; " +
 			"a case is distinct by (schema, input, offset, kind, delivery) and its outcome class is (schema, index of the fatal result relative to the fault-free run)",
 		Assumptions: []string{
 			"the fault is injected at the io.Reader handed to NewTransform; faults inside the schema reader are out of scope",
-			"kind 3 (transient error, data resumes) gates only termination, as the property quantifies over persistent and transient-then-persistent errors",
+			"kind 3 (the reader fails once, carries on, then fails for good) is held to the full standard since round 5: a swallowed failure shifts every later record",
 			"a case in which the reader never asks for bytes at the fault offset (fault not delivered) is not a fault case",
 		},
 		Run: func(c *core.Ctx) {
